@@ -1,4 +1,5 @@
 import XcmModel.Props.C01
+import XcmModel.Lemmas.Ux
 /-!
 # C17 — traffic counters tell the truth  (framing layer: tcp, tls)
 
@@ -440,5 +441,91 @@ example :
     e.s.cnt = { toAppB := 2, fromAppB := 3, toLowerB := 0, fromLowerB := 3,
                 toAppM := 1, fromAppM := 1, toLowerM := 0, fromLowerM := 1 } := by
   decide
+
+
+
+theorem sumLen_take_le' (fulls : List Bytes) (caps : List Nat) :
+    Ux.sumLen (List.zipWith (fun m c => m.take c) fulls caps) ≤ Ux.sumLen fulls := by
+  induction fulls generalizing caps with
+  | nil => simp [Ux.sumLen]
+  | cons f fs ih =>
+    cases caps with
+    | nil => simp [Ux.sumLen]
+    | cons c cs =>
+      have := ih cs
+      simp only [List.zipWith_cons_cons, Ux.sumLen, List.map_cons, List.sum_cons, List.length_take] at *
+      omega
+
+/-! ## ux / uxf counters -/
+
+/-- no ux operation decreases a counter -/
+theorem C17_ux_monotone (s : Ux.St) (m : Bytes) (k : Ux.KSend) (cap : Nat) (kr : Ux.KRecv) :
+    Cnts.le s.cnt (Ux.send s m k).1.cnt ∧ Cnts.le s.cnt (Ux.receive s cap kr).1.cnt
+    ∧ Cnts.le s.cnt (Ux.finish s).1.cnt := by
+  refine ⟨?_, ?_, ?_⟩
+  · unfold Ux.send
+    split
+    · exact Cnts.le_refl _
+    · split
+      · exact Cnts.le_refl _
+      · cases k <;> simp [Cnts.le]
+  · unfold Ux.receive
+    cases kr with
+    | eof => exact Cnts.le_refl _
+    | err e => exact Cnts.le_refl _
+    | record r =>
+      simp only []
+      split
+      · exact Cnts.le_refl _
+      · simp [Cnts.le]
+  · exact Cnts.le_refl _
+
+/-- a send that fails (EMSGSIZE, EINVAL, EAGAIN or any kernel errno) leaves the state untouched and
+hands nothing to the kernel -/
+theorem C17_ux_refused_counts_nothing (s : Ux.St) (m : Bytes) (k : Ux.KSend) (e : Nat)
+    (h : (Ux.send s m k).2.1 = .err e) : (Ux.send s m k).1 = s ∧ (Ux.send s m k).2.2 = none := by
+  unfold Ux.send at *
+  by_cases h1 : m.length > Generated.UX_MAX_MSG
+  · simp [h1]
+  · by_cases h2 : m.length = 0
+    · simp [h1, h2]
+    · cases k with
+      | ok => simp [h1, h2] at h
+      | err e' => simp [h1, h2]
+
+/-- a truncated receive counts what was really delivered: `to_app` grows by `min len capacity`,
+`from_lower` by the record's length (this is what fix fef0a33 / F-17a restored) -/
+theorem C17_ux_truncated_counts_delivered (s : Ux.St) (cap : Nat) (r : Bytes) (hr : r ≠ []) :
+    let s' := (Ux.receive s cap (.record r)).1
+    s'.cnt.toAppB = s.cnt.toAppB + min r.length cap ∧ s'.cnt.fromLowerB = s.cnt.fromLowerB + r.length
+    ∧ s'.cnt.toAppM = s.cnt.toAppM + 1 ∧ s'.cnt.fromLowerM = s.cnt.fromLowerM + 1
+    ∧ (∀ p f, (Ux.receive s cap (.record r)).2 = .msg p f → p.length = min r.length cap) := by
+  have : r.length ≠ 0 := by cases r <;> simp_all
+  simp only [Ux.receive, this, if_false]
+  refine ⟨trivial, trivial, trivial, trivial, ?_⟩
+  intro p f h
+  split at h
+  · cases h
+  · cases h; simp [List.length_take, Nat.min_comm]
+
+/-- all counter statements for ux on any history: exact values, order, and agreement when the
+kernel queue is empty ("idle and flushed") -/
+theorem C17_ux_counters_exact (steps : List Ux.Step) :
+    let L := (({} : Ux.Link).run steps)
+    L.a.cnt.fromAppM = L.accepted.length ∧ L.a.cnt.fromAppB = Ux.sumLen L.accepted
+    ∧ L.a.cnt.toLowerM = L.a.cnt.fromAppM ∧ L.a.cnt.toLowerB = L.a.cnt.fromAppB
+    ∧ L.b.cnt.toAppM = L.returned.length ∧ L.b.cnt.toAppB = Ux.sumLen L.returned
+    ∧ L.b.cnt.fromLowerM = L.b.cnt.toAppM ∧ L.b.cnt.toAppB ≤ L.b.cnt.fromLowerB
+    ∧ (L.chan = [] → L.a.cnt.toLowerM = L.b.cnt.fromLowerM ∧ L.a.cnt.toLowerB = L.b.cnt.fromLowerB) := by
+  intro L
+  have h : Ux.Inv L := Ux.inv_run steps _ Ux.inv_init
+  have hl : L.returned.length = L.fulls.length := by rw [h.ret]; simp [h.len]
+  refine ⟨h.aFromM, h.aFromB, by rw [h.aToM, h.aFromM], by rw [h.aToB, h.aFromB], by rw [h.bToM, hl], h.bToB,
+    by rw [h.bFromM, h.bToM], ?_, ?_⟩
+  · rw [h.bToB, h.bFromB, h.ret]
+    exact sumLen_take_le' _ _
+  · intro hc
+    have ha : L.accepted = L.fulls := by rw [h.acc, hc]; simp
+    exact ⟨by rw [h.aToM, h.bFromM, ha], by rw [h.aToB, h.bFromB, ha]⟩
 
 end XcmModel.C17
